@@ -128,6 +128,9 @@ var mutOps = []string{"flip", "flip", "flip", "set", "add", "fill", "trunc", "ex
 func genMutCase(t *rapid.T) MutCase {
 	var cs MutCase
 	thorough := ev.Get(prop).Thorough()
+	if drawUniform(t, 6, "transitFault") == 0 {
+		return genTransitFault(t, thorough)
+	}
 	cs.Kind = pick(t, []string{"r1", "r1", "gs", "gs", "gs", "es", "es", "es", "r2", "r2", "r3", "r3"}, "kind")
 	cs.Curve = drawCurve(t, []int{5, 8, 2, 1})
 	nb := baseSeeds(cs.Curve, thorough)
@@ -239,6 +242,67 @@ func genMutCase(t *rapid.T) MutCase {
 		cs.Ops = append(cs.Ops, MutOp{Op: "relen"})
 	}
 	return cs
+}
+
+// genTransitFault is a dedicated class: one local fault (a flipped bit, a
+// changed byte, a few overwritten bytes) in a Round3 message on its way from
+// the garbler to the evaluator, aimed at the small sections the digest is read
+// from - output hints and garbler input labels are 1.7 % of the message - and
+// at the other sections the evaluation depends on.
+func genTransitFault(t *rapid.T, thorough bool) MutCase {
+	cs := MutCase{Kind: "r3"}
+	cs.Curve = drawCurve(t, []int{5, 8, 2, 1})
+	cs.Seed = uint64(rapid.IntRange(0, baseSeeds(cs.Curve, thorough)-1).Draw(t, "baseSeed"))
+	cs.Seed2 = cs.Seed
+	target := pick(t, []string{"output-hints", "output-hints", "output-hints", "garbler-inputs", "garbler-inputs",
+		"ciphertexts", "tables", "key"}, "target")
+	var r region
+	for _, x := range layout("r3", curveByName(cs.Curve)) {
+		if x.name == target {
+			r = x
+		}
+	}
+	op := MutOp{At: r.name}
+	elem := 0
+	if r.unit > 0 {
+		elem = drawUniform(t, r.len/r.unit, "elem") * r.unit
+	}
+	within := r.len
+	if r.unit > 0 {
+		within = r.unit
+	}
+	op.Pos = r.off + elem + drawUniform(t, within, "byte")
+	switch op.Op = pick(t, []string{"flip", "flip", "set", "add", "fill"}, "op"); op.Op {
+	case "flip":
+		op.Val = drawUniform(t, 8, "bit")
+	case "set":
+		op.Val = rapid.IntRange(0, 255).Draw(t, "byte")
+	case "add":
+		op.Val = rapid.SampledFrom([]int{1, 255, 128}).Draw(t, "inc")
+	case "fill":
+		op.N = rapid.SampledFrom([]int{2, 8, 16}).Draw(t, "n")
+		op.Val = rapid.SampledFrom([]int{0, 0xff, -1}).Draw(t, "val")
+	}
+	cs.Ops = []MutOp{op}
+	return cs
+}
+
+// localFaults tells whether every edit changes bytes in place without moving
+// material of the message (or of another message) to a different position.
+// Only for those is "error or the right digest" guaranteed by the protocol: a
+// label copied onto another position (splice, swap, cut+insert shifting a
+// section, e.g. an output hint's L1 written over its L0) is a valid label in
+// the wrong place and changes the decoded output bit without any error - the
+// hints are not authenticated.
+func localFaults(ops []MutOp) bool {
+	for _, op := range ops {
+		switch op.Op {
+		case "flip", "set", "add", "fill":
+		default:
+			return false
+		}
+	}
+	return len(ops) > 0
 }
 
 func clampN(n, max int) int {
@@ -400,7 +464,17 @@ func runMutant(cs MutCase) ev.Outcome {
 	if srcErr != nil {
 		return baseFail(cs.Curve, cs.Seed2, srcErr)
 	}
-	return checkMutant(base, cs.Kind, data, describeOps(cs.Ops), true)
+	classes := describeOps(cs.Ops)
+	strict := (cs.Kind == "r1" || cs.Kind == "r3") && localFaults(cs.Ops)
+	if strict {
+		classes = append(classes, "transit-fault="+cs.Kind)
+		for _, op := range cs.Ops {
+			if cs.Kind == "r3" && (op.At == "output-hints" || op.At == "garbler-inputs") {
+				classes = append(classes, "transit-fault-in="+op.At)
+			}
+		}
+	}
+	return checkMutant(base, cs.Kind, data, classes, true, strict)
 }
 
 func describeOps(ops []MutOp) []string {
@@ -425,7 +499,12 @@ func describeOps(ops []MutOp) []string {
 //   - no panic in the round function(s) that consume the decoded value; if the
 //     protocol completes the result is whatever it is (detection of a
 //     structurally valid modification is not demanded).
-func checkMutant(base *baseRun, kind string, data []byte, classes []string, follow bool) ev.Outcome {
+//
+// strict (local faults in a garbler->evaluator message, i.e. Round1 or Round3,
+// with the evaluator's own input and state untouched): the evaluator must end
+// with an error or with exactly SHA-256(a xor b); a nil error with another
+// digest is a violation.
+func checkMutant(base *baseRun, kind string, data []byte, classes []string, follow, strict bool) ev.Outcome {
 	c := base.curve
 	orig := base.enc[kind]
 	want := wantLen(kind, c)
@@ -562,6 +641,11 @@ func checkMutant(base *baseRun, kind string, data []byte, classes []string, foll
 	default:
 		if identical {
 			return ev.Fail("protocol/wrong-hash", "honest run repeated from the decoded %s gives %x, want %x", kind, out, base.out)
+		}
+		if strict {
+			return ev.Fail("mutants/"+kind+"/wrong-digest-accepted",
+				"%s message damaged in transit (%d bytes, %s): the evaluator finished without error with digest %x, SHA-256(a xor b) is %x",
+				kind, len(data), base.curveName, out, base.out)
 		}
 		classes = append(classes, "then=completed-other-hash", kind+"/undetected-wrong-hash")
 	}
